@@ -203,6 +203,7 @@ struct SeqRun
     std::set<int>                 recycled; // keys inserted after some erase/eviction happened (slot reuse)
     bool                          any_removed{false};
     bool                          any_erased{false}; // an erase call succeeded in this run
+    std::map<int, int>            rr_label;          // rr, histories without erases: lineage label of each resident
     uint64_t                      stamp{0};
     int64_t                       z_prev{0};
     int64_t                       newly_expired{0};
@@ -783,11 +784,6 @@ struct SeqRun
                         if (kv.second.ins < v.ins)
                             ++rank;
                     st.bump("rr.rank." + std::to_string(L0.size()) + "." + std::to_string(rank));
-                    // While nothing has been erased the slots are filled in insertion order and an evicted
-                    // slot is refilled at once, so rank and slot position stay in a fixed relation:
-                    // a position the chooser can never produce shows up as a rank that never occurs.
-                    if (!any_erased)
-                        st.bump("rr.purerank." + std::to_string(L0.size()) + "." + std::to_string(rank));
                 }
                 break;
             default:
@@ -956,6 +952,8 @@ struct SeqRun
             e.count             = 1;
             e.touch             = now;
             e.last_write_update = false;
+            if (tr.policy == Policy::rr && !any_erased && !full)
+                rr_label[k] = (int)live.size();
             live[k]             = e;
             zomb.erase(k);
             gone.erase(k);
@@ -1049,6 +1047,18 @@ struct SeqRun
                 {
                     int victim = *missing.begin();
                     victim_check(L0k, Lpre, victim);
+                    if (tr.policy == Policy::rr && !any_erased && rr_label.count(victim))
+                    {
+                        // Lineage labels: the i-th key of a history without erases gets label i, a key that takes
+                        // an evicted key's place inherits its label.  Residents and labels stay in bijection, so a
+                        // chooser that spreads over the residents evicts every label sooner or later and none
+                        // always; a chooser with a blind spot (a slot it can never draw) leaves one label immune,
+                        // which the rank by insertion order cannot show (the immune key simply grows old).
+                        int lab = rr_label[victim];
+                        st.bump("rr.purerank." + std::to_string(L0k.size()) + "." + std::to_string(lab));
+                        rr_label.erase(victim);
+                        rr_label[k] = lab;
+                    }
                     remove_live(victim, Gone::evicted);
                     if (failed())
                         return res;
